@@ -839,7 +839,9 @@ pub fn ambiguity_mapping(n: usize, odd: Option<usize>, ranged: bool) -> Vec<u8> 
 
 // ---------------------------------------------------------------- C05 record ASTs
 
-const IDENT_CHARS: &[&str] = &["a", "b", "Z", "$", "<", ">", "-", "[]", "1", "0", "é", "日", "_", "x"];
+const IDENT_CHARS: &[&str] = &["a", "b", "Z", "$", "<", ">", "-", "[]", "1", "0", "é", "日", "_", "x",
+    // letters whose last UTF-8 byte is 0x85 / 0xA0 (NEL / NBSP when a byte is read as Latin-1)
+    "à", "Å", "Π", "х", "丠", "/"];
 
 fn ident(rng: &mut Rng, min: usize, allow_dot: bool, allow_lead_digit: bool) -> String {
     let n = rng.range(min, 5);
@@ -870,6 +872,15 @@ fn num40(rng: &mut Rng) -> u64 {
     }
 }
 
+/// a numeral as text: canonical, zero-padded, or all zeros (1..45 digits)
+fn numtxt(rng: &mut Rng) -> String {
+    match rng.below(30) {
+        0 => format!("{}{}", "0".repeat(rng.range(1, 40)), num40(rng)),
+        1 => "0".repeat(rng.pick(&[1usize, 2, 19, 20, 21, 22, 39, 40, 45])),
+        _ => num40(rng).to_string(),
+    }
+}
+
 /// a well-formed line of a random kind, as text
 pub fn wf_line(rng: &mut Rng) -> String {
     match rng.below(10) {
@@ -896,7 +907,7 @@ pub fn wf_line(rng: &mut Rng) -> String {
             let mut s = String::from("    ");
             let has_range = rng.pct(60);
             if has_range {
-                s.push_str(&format!("{}:{}:", num40(rng), num40(rng)));
+                s.push_str(&format!("{}:{}:", numtxt(rng), numtxt(rng)));
             }
             // type: no leading digit unless a range prefix is printed
             s.push_str(&ident(rng, 0, true, has_range));
@@ -911,8 +922,8 @@ pub fn wf_line(rng: &mut Rng) -> String {
             s.push(')');
             match rng.below(3) {
                 0 => {}
-                1 => s.push_str(&format!(":{}", num40(rng))),
-                _ => s.push_str(&format!(":{}:{}", num40(rng), num40(rng))),
+                1 => s.push_str(&format!(":{}", numtxt(rng))),
+                _ => s.push_str(&format!(":{}:{}", numtxt(rng), numtxt(rng))),
             }
             s.push_str(" -> ");
             s.push_str(&ident(rng, 0, true, true));
@@ -1330,7 +1341,9 @@ fn get_u32(b: &[u8], off: usize) -> u32 {
 
 pub fn gen_c11(rng: &mut Rng, tier: &str, out: &mut Out) {
     let th = thorough(tier);
-    let n = if th { 2400 } else { 200 };
+    // (every prefix is one hex line: the volume is quadratic in the file size, so "all prefixes"
+    // is limited to small files — 400 bytes quick, 1000 thorough — and sampled above that)
+    let n = if th { 1200 } else { 200 };
     for i in 0..n {
         let mut cfg = Cfg::domain();
         cfg.max_classes = 3;
@@ -1354,7 +1367,12 @@ pub fn gen_c11(rng: &mut Rng, tier: &str, out: &mut Out) {
         buf_queries(out, rng, true, &u, 1, false);
         // prefixes: all for small files, sampled + section boundaries for large ones
         let len = bytes.len();
-        let mut cuts: Vec<usize> = if len <= 400 || th { (0..len).collect() } else { (0..len).step_by(7).collect() };
+        let mut cuts: Vec<usize> = if len <= 400 || (th && len <= 1000) { (0..len).collect() } else if len > 6000 { (0..len).step_by(if th { 61 } else { 211 }).collect() } else { (0..len).step_by(if th { 3 } else { 7 }).collect() };
+        for d in 1..=16 {
+            if len >= d {
+                cuts.push(len - d); // the torn tail
+            }
+        }
         let nc = get_u32(&bytes, 8) as usize;
         let nm = get_u32(&bytes, 12) as usize;
         let nb = get_u32(&bytes, 16) as usize;
